@@ -226,6 +226,12 @@ class SeqAlg:
             fi = self.eng.repo.funcs.get(f"{self.f.module}.{self.f.cls}.{node.func.attr}")
             if fi is not None and fi.name.startswith("_") and not fi.name.startswith("__") and not fi.is_property and fi.qualname != self.f.qualname:
                 return fi
+        if isinstance(node, ast.Call) and isinstance(node.func, ast.Name) and node.func.id.startswith("_") and not node.func.id.startswith("__"):
+            # a module-level private function of the same module that builds a sequence (comprehension or loop in its body): executed here as well;
+            # plain accessors are left to the term evaluator, which inlines them
+            fi = self.eng.repo.funcs.get(f"{self.f.module}.{node.func.id}")
+            if fi is not None and fi.cls is None and any(isinstance(n, (ast.ListComp, ast.For, ast.While)) for n in ast.walk(fi.node)):
+                return fi
         return None
 
     def call_helper(self, fi, node, env):
@@ -235,9 +241,9 @@ class SeqAlg:
         a = fi.node.args
         if a.vararg or a.kwarg or a.kwonlyargs or a.posonlyargs or any(isinstance(x, ast.Starred) for x in node.args):
             raise Unsupported(f"signature of {fi.name}")
-        params = fi.params[1:]
+        params = fi.params[1:] if fi.cls else fi.params
         vals = [self.expr(x, env) for x in node.args]
-        cenv = {fi.params[0]: ("self",)}
+        cenv = {fi.params[0]: ("self",)} if fi.cls else {}
         for p_, v in zip(params, vals):
             cenv[p_] = v
         for k in node.keywords:
